@@ -48,7 +48,17 @@ RULE = ('four case groups, classes chosen round-robin from the case index: "stro
         'the caller\'s ElasticConstants object (in place through the array it was built from and through the arrays its getters return; re-assigned through Cij= / Cijkl= / Sij= / cubic() / isotropic()), the Burgers array, '
         'the transform / axes array or nested list, the m and n arrays or lists, the Miller index arrays, the Box (vects=, set(a,b,c,angles), origin= + vects=), the positions array and list after an evaluation, '
         'the arrays and the ElasticConstants object the solution handed back (K_tensor, burgers, transform, m, n, xi, C, p/A/L/k, displacement / strain / stress arrays); in-place changes rotate over scale / overwrite / NaN, '
-        'the order of the five families of changes and the setter used rotate with the case index; all five families for fresh solutions, two per step of a history.')
+        'the order of the five families of changes and the setter used rotate with the case index; all five families for fresh solutions, two per step of a history.  '
+        'FORM OF THE POSITIONS (every probed solution of every group, i.e. Stroh / isotropic, constructed directly / through the wrapper / re-solved / stated in the reference orientation / from Miller indices, '
+        'plus the wrapper\'s Stroh solution of every second "stroh" case): displacement, strain and stress are evaluated with the positions handed over as '
+        '(a) the same float64 numbers (12 of the field points, hostile polar angles first) as list of lists / tuple of tuples / list of tuples / list of row arrays / Fortran-ordered / row-strided / column-strided / '
+        'negative-stride / read-only / float128 arrays and with duplicated rows; (b) float32 (C and Fortran order, list of float32 scalars; at the length scale of the case) and float16 (unit scale) roundings of them, the '
+        'reference being the float64 array of exactly the rounded numbers; (c) integer grid nodes |coordinate| <= 12 (axis nodes +-3 e_k first, then random) as int64 / int32 / int16 / int8 / uint8 / uint16 (non-negative nodes) arrays, '
+        'lists / tuples of Python ints, strided / read-only / Fortran-ordered int64 arrays and integer-valued float32; (d) single points as int list / int tuple / int64 / int8 / float32 arrays / float tuple / row view of a 2-D '
+        'integer array / (1,3) int64 and float32 arrays / list holding one list; (e) (0,3) arrays of float64 / int64 / float32.  Every form must be accepted, return real arrays of the float64 shapes, agree with the float64 '
+        'evaluation to 1e-12 relative, leave the argument untouched and not alias it.  The fields of the int64 nodes are also judged on their own (strain = Richardson symmetric gradient of u, Hooke, stress = C : grad u, '
+        'eps(k x) = eps(x)/k for k = 2 (int8), -1 (list), 3 (int64), isotropic closed forms), nodes lying exactly on the cut half-plane (axis-aligned m, n) must have the strain / stress of both one-sided limits; '
+        'the arrays handed out by the first evaluation are compared with copies after all other calls and the first evaluation is repeated bit for bit.')
 ASSUMPTIONS = [
     'Stroh inputs are kept away from sextic-root degeneracy: distinct upper-half-plane roots of the oracle\'s own sextic '
     'differ by >= 0.05 and have imaginary part >= 0.08 (resampled otherwise; the near-isotropic limit family is exempt and '
@@ -64,6 +74,10 @@ ASSUMPTIONS = [
     'independence from later changes: re-binding a name is not a change of an object and is not generated; letters, tuples and numbers cannot be changed in place (counted as not applicable); '
     'a change that shows is undone in place and the baseline must come back before the next change is made (otherwise the rest of the sequence is skipped and counted); '
     'results are compared bit for bit, which presupposes that evaluation is deterministic (the repeat clause checks that separately)',
+    'form of the positions: rows that a narrow floating type rounds onto the line, onto the cut or to a point five times nearer to the line are dropped (float16 is generated at unit length scale whatever the scale of the '
+    'Burgers vector); unsigned types get nodes of the non-negative octant (counted as exempt when fewer than two are off the line and the cut); a (1,3) argument may give a one-row or a squeezed result; arrays of more than '
+    'two dimensions are not generated (Stroh.eta flattens them); the DISPLACEMENT at a point lying exactly on the cut half-plane is not judged (the statement leaves the value there open), strain and stress there are; '
+    'an array of zero points is taken to be an array in the sense of the quantifier',
 ]
 CONFIG = {'quick': dict(shards=8, seeds=1, timeout=900), 'thorough': dict(shards=16, seeds=3, timeout=3600)}
 
@@ -78,6 +92,24 @@ def _real(rec, a, what, key):
     ok = a.dtype.kind == 'f'
     rec.check(ok, f'{what} is returned as a real array', f'{key}:real-dtype', dtype=str(a.dtype))
     return np.real(a).astype(float) if not ok else a
+
+
+FORM_ACCEPT = 'displacement, strain and stress accept positions as nested lists / tuples, integer arrays of any width, float32 / float16 / float128 arrays, Fortran-ordered, strided and read-only arrays, single points of these kinds and arrays of 0 or 1 rows'
+FORM_VALUE = ('displacement, strain and stress do not depend on the form in which the positions are given: the result equals that of the float64 array holding the same numbers '
+              'to float64 rounding (1e-12 relative; nothing is stored or computed in the type of the positions)')
+FORM_REAL = 'fields of positions given in another form are returned as real floating-point arrays'
+FORM_SHAPE = 'fields of positions given in another form have the shape of the float64 result ((N,3)/(N,3,3); (3,)/(3,3) for one point; (0,3)/(0,3,3) for none)'
+FORM_INPUT = 'evaluating a field does not modify the positions handed in, whatever their form'
+FORM_ALIAS = 'a returned field does not share memory with the positions handed in'
+
+
+def _same_arg(a, b):
+    if isinstance(a, np.ndarray) or isinstance(b, np.ndarray):
+        return (isinstance(a, np.ndarray) and isinstance(b, np.ndarray) and a.dtype == b.dtype and a.shape == b.shape
+                and np.array_equal(a, b, equal_nan=a.dtype.kind == 'f'))
+    if isinstance(a, (list, tuple)):
+        return type(a) is type(b) and len(a) == len(b) and all(_same_arg(p, q) for p, q in zip(a, b))
+    return type(a) is type(b) and a == b
 
 
 class Probe:
@@ -98,6 +130,7 @@ class Probe:
         self.cmax = float(np.abs(self.c4).max())
         self.ls = float(spec.get('ls', 1.0))          # length scale applied to every field point (b is already scaled)
         self.ok = True
+        self.nodes = None                              # integer grid nodes judged by forms(): (float64 nodes, fields of the int64 array, scales)
 
     # -- point sets, scaled -------------------------------------------------------
     def _field_points(self):
@@ -292,6 +325,186 @@ class Probe:
         rec.close(1e-12 * self.bmag * (1 + np.abs(np.log(r / self.ls)))[:, None], ul, u, 'list-of-lists input gives the array result', f'{key}:list-input')
         self.x, self.r, self.fu, self.fe, self.fs, self.sc_e, self.sc_s = x, r, u, e, s, sc_e, sc_s
 
+    # -- the form in which positions are handed over -------------------------------------------
+    def _ref(self, sol, xf):
+        """Fields at the float64, C-contiguous array xf (N >= 2 rows), real parts."""
+        xf = np.ascontiguousarray(xf, float)
+        return tuple(np.real(np.asarray(f(xf.copy()))) for f in (sol.displacement, sol.strain, sol.stress))
+
+    def _scales(self, xf, ref):
+        """Per-point magnitudes the comparisons are relative to: (N,1), (N,1,1), (N,1,1) and the distance from the line."""
+        r = np.hypot(xf @ self.m, xf @ self.n)
+        u, e, s = ref
+        sc_u = np.abs(u).max(axis=1) + self.bmag
+        sc_e = np.maximum(np.abs(e).max(axis=(1, 2)), self.bmag / (2 * np.pi * r))
+        sc_s = np.maximum(np.abs(s).max(axis=(1, 2)), 0.1 * self.cmax * self.bmag / (2 * np.pi * r))
+        return sc_u[:, None], sc_e[:, None, None], sc_s[:, None, None], r
+
+    def _judge_form(self, sol, key, klass, form, arg, ref, scales, single=False, squeeze=False):
+        """One argument form: accepted, real, right shapes, equal to the float64 reference to float64 rounding, argument untouched and
+        not aliased by the results."""
+        import copy
+        rec = self.rec
+        fkey = f'{key}:positions:{klass}'
+        snap = copy.deepcopy(arg)
+        raw = None
+        with self.ctx.guard(FORM_ACCEPT, f'{fkey}:accepted'):
+            raw = [sol.displacement(arg), sol.strain(arg), sol.stress(arg)]
+        rec.count(f'class:positions:{klass}:{form}')
+        rec.count('clause:' + FORM_ACCEPT)
+        if raw is None:
+            return None
+        rec.check(_same_arg(snap, arg), FORM_INPUT, f'{fkey}:input-unmodified', form=form)
+        if isinstance(arg, np.ndarray):
+            rec.check(not any(isinstance(g, np.ndarray) and np.shares_memory(g, arg) for g in raw), FORM_ALIAS, f'{fkey}:result-aliases-input', form=form)
+        out = []
+        for name, g, exp, sc in zip(('displacement', 'strain', 'stress'), raw, ref, scales):
+            g = np.asarray(g)
+            if not rec.check(g.dtype.kind == 'f', FORM_REAL, f'{fkey}:real-dtype:{name}', form=form, dtype=str(g.dtype)):
+                g = np.real(g)
+            if squeeze and g.ndim == exp.ndim + 1 and g.shape[0] == 1:          # a (1,3) argument: either a one-row result or the squeezed one
+                g = g[0]
+            if not rec.check(g.shape == exp.shape, FORM_SHAPE, f'{fkey}:shape:{name}', form=form, got=g.shape, expected=exp.shape):
+                out.append(None)
+                continue
+            rec.close(1e-12 * (sc[0] if single else sc), g.astype(float), exp, FORM_VALUE, f'{fkey}:{name}', form=form)
+            out.append(g.astype(float))
+        return out
+
+    def forms(self, sol=None, key=None):
+        """Positions as lists / tuples / integer arrays of every width / float32 / float16 / float128 / Fortran-ordered, strided and
+        read-only arrays, single points of the same kinds, (1,3) and (0,3) arrays, duplicated rows: the result must be that of the
+        float64 array holding the same numbers (to float64 rounding: nothing may be stored or computed in the type of the positions);
+        integer grid nodes are in addition judged on their own (strain = sym grad u, Hooke, 1/r, continuity across the cut at nodes lying
+        exactly on it); results handed out earlier must survive all these calls and the first evaluation must repeat bit for bit."""
+        rec, ctx = self.rec, self.ctx
+        primary = sol is None
+        sol = self.sol if sol is None else sol
+        key = self.key if key is None else key
+        m, n = self.m, self.n
+        rng = np.random.default_rng([int(ctx.seed), zlib.crc32(np.concatenate([self.b, m, n, [self.ls]]).tobytes()), 4])
+        rec.count('positions:solutions-probed')
+        rec.count('positions:solutions-probed:' + ('Isotropic' if self.s['solver'] == 'iso' else 'Stroh'))
+        # A. the same float64 numbers in another container / layout (hostile polar angles first)
+        sel = list(range(10)) + sorted(int(k) for k in rng.choice(np.arange(10, len(self.x)), 2, replace=False))
+        xa = self.x[sel].copy()
+        first_x = xa.copy()
+        first = [sol.displacement(first_x), sol.strain(first_x), sol.stress(first_x)]           # kept as handed out: judged again at the end
+        first_copy = [np.array(a) for a in first]
+        ref = self._ref(sol, xa)
+        sc = self._scales(xa, ref)
+        for form in P.SAME_VALUE_FORMS:
+            self._judge_form(sol, key, 'same-numbers', form, P.same_value_form(xa, form), ref, sc[:3])
+        # duplicated rows
+        dup = [0, 0, 3, 0, 3, 11]
+        got = self._judge_form(sol, key, 'duplicate-rows', 'float64', xa[dup], tuple(a[dup] for a in ref), tuple(a[dup] for a in sc[:3]))
+        if got is not None and all(g is not None for g in got):
+            rec.check(all(np.array_equal(g[0], g[1]) and np.array_equal(g[0], g[3]) and np.array_equal(g[2], g[4]) for g in got),
+                      'duplicated positions in one array give identical rows', f'{key}:positions:duplicate-rows:identical')
+        # B. narrow floating types: the reference is evaluated at exactly the numbers the narrow type holds
+        for form in P.NARROW_FLOAT_FORMS:
+            base = xa / self.ls if form == 'float16' else xa          # float16 cannot hold 1e-10 or 1e6: unit-scale coordinates
+            _a, held = P.narrow_float_form(base, form)
+            with np.errstate(all='ignore'):
+                xh, yh = held @ m, held @ n
+                keep = np.isfinite(held).all(axis=1) & (np.hypot(xh, yh) > 0.2 * np.hypot(base @ m, base @ n)) & ~((yh == 0) & (xh < 0))
+            if keep.sum() < 2:
+                rec.count(f'positions:exempt:{form}:fewer-than-2-points-survive-the-rounding')
+                continue
+            arg, held = P.narrow_float_form(base[keep], form)
+            refn = self._ref(sol, held)
+            self._judge_form(sol, key, 'narrow-float', form, arg, refn, self._scales(held, refn)[:3])
+            rec.count('positions:narrow-float:points', int(keep.sum()))
+        # C. integer grid nodes
+        off, cut, _cont = P.integer_nodes(rng, m, n)
+        offp, _c, _d = P.integer_nodes(rng, m, n, nonneg=True)
+        nodes_ok = len(off) >= 2
+        if nodes_ok:
+            xf = off.astype(float)
+            refi = self._ref(sol, xf)
+            sci = self._scales(xf, refi)
+            got64 = None
+            for form in P.INTEGER_FORMS:
+                unsigned = form.startswith('uint')
+                nodes = offp if unsigned else off
+                if len(nodes) < 2:
+                    rec.count(f'positions:exempt:{form}:fewer-than-2-nodes')
+                    continue
+                arg = P.integer_form(nodes, form)
+                if arg is None:
+                    rec.count(f'positions:exempt:{form}:out-of-range')
+                    continue
+                if unsigned:
+                    xp = offp.astype(float)
+                    refp = self._ref(sol, xp)
+                    self._judge_form(sol, key, 'integer', form, arg, refp, self._scales(xp, refp)[:3])
+                else:
+                    g = self._judge_form(sol, key, 'integer', form, arg, refi, sci[:3])
+                    if form == 'int64':
+                        got64 = g
+            rec.count('positions:integer:nodes', len(off))
+            if got64 is not None and all(g is not None for g in got64):
+                u_i, e_i, s_i = got64
+                r = sci[3]
+                ikey = f'{key}:positions:integer-nodes'
+                e_fd, est = O.sym_grad(lambda q: np.real(np.asarray(sol.displacement(q))), xf, H_REL * r)
+                rec.close(2e-6 * sci[1], e_i, e_fd, 'strain at integer-typed positions equals the symmetric central-difference gradient of the displacement',
+                          f'{ikey}:strain-gradient', richardson_delta=est)
+                rec.close(3e-7 * self.cmax * sci[1], s_i, O.contract(self.c4, e_i), 'stress at integer-typed positions equals the stiffness contracted with the strain there',
+                          f'{ikey}:hooke')
+                rec.close(3e-6 * self.cmax * sci[1], s_i, O.contract(self.c4, e_fd),
+                          'stress at integer-typed positions equals the stiffness contracted with the symmetric gradient of the displacement', f'{ikey}:hooke-gradient')
+                for lam, form in ((2, 'int8'), (-1, 'list-of-int-lists'), (3, 'int64')):
+                    arg = P.integer_form(lam * off, form)
+                    with ctx.guard(FORM_ACCEPT, f'{ikey}:accepted'):
+                        e2, s2 = np.real(np.asarray(sol.strain(arg))), np.real(np.asarray(sol.stress(arg)))
+                        rec.close(1e-10 * sci[1], lam * e2, e_i, 'strain falls off as 1/r between integer grid nodes: eps(k x) = eps(x)/k', f'{ikey}:homogeneity-strain', k=lam)
+                        rec.close(1e-10 * sci[2], lam * s2, s_i, 'stress falls off as 1/r between integer grid nodes: sigma(k x) = sigma(x)/k', f'{ikey}:homogeneity-stress', k=lam)
+                rec.count('positions:integer:judged-on-their-own')
+                if primary:
+                    self.nodes, self.nodes_fields, self.nodes_sc = xf, (u_i, e_i, s_i), sci
+            # nodes lying exactly on the cut half-plane (axis-aligned m, n): strain and stress are continuous there
+            if len(cut):
+                cf = cut.astype(float)
+                rc = np.hypot(cf @ m, cf @ n)
+                d = (1e-9 * rc)[:, None] * n
+                pair = np.concatenate([cf + d, cf - d])
+                two = np.concatenate([cut, cut]) if len(cut) == 1 else cut          # N >= 2 rows
+                with ctx.guard(FORM_ACCEPT, f'{key}:positions:on-cut-nodes:accepted'):
+                    ec, sc_ = np.real(np.asarray(sol.strain(two)))[:len(cut)], np.real(np.asarray(sol.stress(two)))[:len(cut)]
+                    ep, sp = np.real(np.asarray(sol.strain(pair))), np.real(np.asarray(sol.stress(pair)))
+                    for side, sl in (('upper', slice(0, len(cut))), ('lower', slice(len(cut), None))):
+                        rec.close(1e-6 * np.abs(ep[sl]).max(axis=(1, 2))[:, None, None], ec, ep[sl], 'strain at integer nodes lying exactly on the cut equals its limit from either side',
+                                  f'{key}:positions:on-cut-nodes:strain', side=side)
+                        rec.close(1e-6 * np.abs(sp[sl]).max(axis=(1, 2))[:, None, None], sc_, sp[sl], 'stress at integer nodes lying exactly on the cut equals its limit from either side',
+                                  f'{key}:positions:on-cut-nodes:stress', side=side)
+                rec.count('positions:on-cut-nodes', len(cut))
+        else:
+            rec.count('positions:exempt:integer:fewer-than-2-nodes')
+        # D. single points (and one-row arrays) of the same kinds
+        if nodes_ok:
+            k = int(rng.integers(0, len(off)))
+            j = int(rng.integers(0, len(xa)))
+            for form in P.SINGLE_POINT_FORMS:
+                arg, held = P.single_point_form(off[k], xa[j], form)
+                two = np.stack([held, xa[0]])
+                ref2 = self._ref(sol, two)
+                sc2 = self._scales(two, ref2)
+                self._judge_form(sol, key, 'single-point', form, arg, tuple(a[0] for a in ref2), sc2[:3], single=True, squeeze='(1,3)' in form or 'one-list' in form)
+        # E. arrays of zero points
+        for form in P.EMPTY_FORMS:
+            self._judge_form(sol, key, 'no-points', form, P.empty_form(form), (np.zeros((0, 3)), np.zeros((0, 3, 3)), np.zeros((0, 3, 3))),
+                             (np.zeros((0, 1)), np.zeros((0, 1, 1)), np.zeros((0, 1, 1))))
+        # F. what was handed out first is still what it was, and the first evaluation repeats bit for bit after all of the above
+        rec.check(all(np.array_equal(a, b) for a, b in zip(first, first_copy)),
+                  'arrays handed out by an earlier evaluation are not overwritten by later evaluations (other positions, other types, other shapes)',
+                  f'{key}:positions:earlier-result-overwritten')
+        again = [sol.displacement(first_x), sol.strain(first_x), sol.stress(first_x)]
+        rec.check(all(np.asarray(a).dtype == b.dtype and np.array_equal(a, b) for a, b in zip(again, first_copy)),
+                  'the same float64 positions evaluated again after positions of other types and shapes give the identical result',
+                  f'{key}:positions:repeat-after-other-forms')
+        rec.count('positions:history-judged')
+
     # -- covariance under a rotation of the whole problem ----------------------------
     def covariance(self, build, K):
         """build(R) -> solution of the problem rotated by R."""
@@ -348,6 +561,8 @@ class Probe:
         self.energy()
         self.jump()
         self.fields()
+        if self.ok:
+            self.forms()
         self.repeat(K)
         return K if self.ok else None
 
@@ -750,6 +965,9 @@ def run_stroh(ctx, am):
                               'wrapper:aniso:class', got=type(w).__name__)
                     rec.close(1e-12 * np.abs(K).max(), w.K_tensor, K, 'wrapper solution equals the direct solution', 'wrapper:aniso:K')
                     rec.count('wrapper:aniso')
+                    if type(w) is am.defect.Stroh and i % 2 == 1:
+                        pb.forms(sol=w, key='wrapper:aniso')
+                        rec.count('positions:wrapper-solution-probed')
                     if type(w) is am.defect.Stroh and i % 2 == 0:
                         watched.append(_watch(w, 'stroh', 'wrapper', pb.x))
                 # ... and whatever the caller does to its objects afterwards leaves both solutions as they are
@@ -854,6 +1072,16 @@ def iso_closed_form(rec, sol, pb, K, mu, nu, b_d, m, n, mn_cls, key):
     uo, eo, so = O.iso_fields(mu, nu, b_d, m, n, pb.x)
     rec.close(1e-9 * pb.sc_e[:, None, None], pb.fe, eo, 'isotropic strain equals the polar closed form (Hirth-Lothe)', f'{key}:closed-form:strain')
     rec.close(1e-9 * pb.sc_s[:, None, None], pb.fs, so, 'isotropic stress equals the polar closed form (Hirth-Lothe)', f'{key}:closed-form:stress')
+    if pb.nodes is not None:
+        un, en, sn = O.iso_fields(mu, nu, b_d, m, n, pb.nodes)
+        rec.close(1e-9 * pb.nodes_sc[1], pb.nodes_fields[1], en, 'isotropic strain at integer-typed positions equals the polar closed form (Hirth-Lothe)',
+                  f'{key}:positions:integer-nodes:closed-form:strain')
+        rec.close(1e-9 * pb.nodes_sc[2], pb.nodes_fields[2], sn, 'isotropic stress at integer-typed positions equals the polar closed form (Hirth-Lothe)',
+                  f'{key}:positions:integer-nodes:closed-form:stress')
+        dn, dno = pb.nodes_fields[0] - pb.nodes_fields[0][0], un - un[0]
+        rec.close(1e-9 * pb.nodes_sc[0], dn, dno, 'isotropic displacement at integer-typed positions equals the closed form up to a rigid translation',
+                  f'{key}:positions:integer-nodes:closed-form:u')
+        rec.count('positions:integer:closed-form-judged')
     du, duo = pb.fu - pb.fu[3], uo - uo[3]
     rec.close(1e-9 * pb.bmag * (1 + np.abs(np.log(pb.r / pb.ls)))[:, None], du, duo,
               'isotropic displacement equals the closed form up to a rigid translation', f'{key}:closed-form:u')
@@ -1684,6 +1912,29 @@ def run(ctx):
     for c, v_ in (('stroh', 27), ('iso', 9), ('wrapper-stroh', 9), ('wrapper-iso', 9)):
         rec.floor('class:alias:variant:' + c, v_)
     rec.floor('alias:probed', 50)
+    # the form in which positions are handed over (every probed solution of every group goes through every form; quick-tier numbers)
+    for klass, forms_ in (('same-numbers', P.SAME_VALUE_FORMS), ('narrow-float', P.NARROW_FLOAT_FORMS), ('integer', P.INTEGER_FORMS),
+                          ('single-point', P.SINGLE_POINT_FORMS), ('no-points', P.EMPTY_FORMS), ('duplicate-rows', ['float64'])):
+        for f_ in forms_:
+            rec.floor(f'class:positions:{klass}:{f_}', 900 if f_.startswith('uint') else 1000)
+    rec.floor('positions:solutions-probed:Stroh', 700)
+    rec.floor('positions:solutions-probed:Isotropic', 300)
+    rec.floor('positions:wrapper-solution-probed', 100)
+    rec.floor('positions:integer:nodes', 10000)
+    rec.floor('positions:integer:judged-on-their-own', 1000)
+    rec.floor('positions:integer:closed-form-judged', 250)
+    rec.floor('positions:narrow-float:points', 40000)
+    rec.floor('positions:on-cut-nodes', 1500)
+    rec.floor('positions:history-judged', 1000)
+    for name in (FORM_VALUE, FORM_REAL, FORM_SHAPE):
+        rec.floor('clause:' + name, 120000)
+    for name in (FORM_ACCEPT, FORM_INPUT):
+        rec.floor('clause:' + name, 40000)
+    rec.floor('clause:' + FORM_ALIAS, 30000)
+    rec.floor('clause:strain at integer-typed positions equals the symmetric central-difference gradient of the displacement', 1000)
+    rec.floor('clause:stress at integer-typed positions equals the stiffness contracted with the symmetric gradient of the displacement', 1000)
+    rec.floor('clause:strain falls off as 1/r between integer grid nodes: eps(k x) = eps(x)/k', 3000)
+    rec.floor('clause:arrays handed out by an earlier evaluation are not overwritten by later evaluations (other positions, other types, other shapes)', 1000)
     rec.floor('reach:VolterraDislocation.find_transform', 8)
     rec.floor('reach:Stroh.solve', 25)
     rec.floor('reach:Stroh.fields', 40)
